@@ -29,11 +29,13 @@ KeyOf(cmp, v) == v \div cmp.mod
 Lt(cmp, a, b) == IF cmp.desc THEN KeyOf(cmp, b) < KeyOf(cmp, a) ELSE KeyOf(cmp, a) < KeyOf(cmp, b)
 Equiv(cmp, a, b) == KeyOf(cmp, a) = KeyOf(cmp, b)
 
-\* coarse heterogeneous key c against element e
-KClass(cmp, e) == KeyOf(cmp, e) \div 2
-KMatch(cmp, e, c) == KClass(cmp, e) = c
-KLt(cmp, e, c) == IF cmp.desc THEN c < KClass(cmp, e) ELSE KClass(cmp, e) < c        \* element orders before the key
-KGt(cmp, e, c) == IF cmp.desc THEN KClass(cmp, e) < c ELSE c < KClass(cmp, e)        \* key orders before the element
+\* coarse heterogeneous key (class c of width w) against element e: equivalent to every e with KeyOf(e) \div w = c
+\* (the label carries c in v and w in n; n = 0 stands for the width 2)
+KW(lb) == IF lb.n = 0 THEN 2 ELSE lb.n
+KClass(cmp, e, w) == KeyOf(cmp, e) \div w
+KMatch(cmp, e, c, w) == KClass(cmp, e, w) = c
+KLt(cmp, e, c, w) == IF cmp.desc THEN c < KClass(cmp, e, w) ELSE KClass(cmp, e, w) < c        \* element orders before the key
+KGt(cmp, e, c, w) == IF cmp.desc THEN KClass(cmp, e, w) < c ELSE c < KClass(cmp, e, w)        \* key orders before the element
 
 SDead == [ex |-> FALSE, elems |-> <<>>, cmp |-> CmpOf(0), pri |-> FALSE, large |-> FALSE]
 SFresh(cm) == [ex |-> TRUE, elems |-> <<>>, cmp |-> CmpOf(cm), pri |-> TRUE, large |-> FALSE]
@@ -130,10 +132,10 @@ SStep(st, lb) ==
     [] lb.op \in {"upperBound", "upperBoundK"} -> SR(st, ItR(At(x, UbIdx(x, lb.v))))
     \* heterogeneous key of a COARSER granularity than the comparator (a transparent comparator may order keys that are
     \* equivalent to several elements): class c matches every element e with KeyOf(e) \div 2 = c
-    [] lb.op = "lowerBoundC" -> SR(st, ItR(At(x, Cardinality({i \in 1..n : KLt(x.cmp, x.elems[i], lb.v)}) + 1)))
-    [] lb.op = "upperBoundC" -> SR(st, ItR(At(x, Cardinality({i \in 1..n : ~KGt(x.cmp, x.elems[i], lb.v)}) + 1)))
-    [] lb.op = "countC"      -> SR(st, SValR(Cardinality({i \in 1..n : KMatch(x.cmp, x.elems[i], lb.v)})))
-    [] lb.op = "containsC"   -> SR(st, SBoolR(\E i \in 1..n : KMatch(x.cmp, x.elems[i], lb.v)))
+    [] lb.op = "lowerBoundC" -> SR(st, ItR(At(x, Cardinality({i \in 1..n : KLt(x.cmp, x.elems[i], lb.v, KW(lb))}) + 1)))
+    [] lb.op = "upperBoundC" -> SR(st, ItR(At(x, Cardinality({i \in 1..n : ~KGt(x.cmp, x.elems[i], lb.v, KW(lb))}) + 1)))
+    [] lb.op = "countC"      -> SR(st, SValR(Cardinality({i \in 1..n : KMatch(x.cmp, x.elems[i], lb.v, KW(lb))})))
+    [] lb.op = "containsC"   -> SR(st, SBoolR(\E i \in 1..n : KMatch(x.cmp, x.elems[i], lb.v, KW(lb))))
     [] lb.op = "equalRange" -> SR(st, RunR(IF Has(x, lb.v) THEN <<RepOf(x, lb.v)>> ELSE <<>>))
     [] lb.op = "iterate"  -> SR(st, SValR(n))
     [] lb.op = "relocate" -> SR(st, SNoRet)
@@ -272,7 +274,8 @@ SOpLabels(st, c, o, Keys, Cms, Its, RLens, MaxLen) ==
       [] o = "insertRange" -> {SLbl(o, c, 0, 0, 0, 0, 0, it, vs) : it \in Its, vs \in {r \in Ranges : Room(n + Len(r))}}
       [] o \in {"insertIlist", "assignIlist", "assignVec"} -> {SLbl(o, c, 0, 0, 0, 0, 0, "", vs) : vs \in {r \in Ranges : Room(n + Len(r))}}
       [] o \in {"lowerBoundC", "upperBoundC", "countC", "containsC"} ->
-           {SLbl(o, c, 0, v, 0, 0, 0, "", <<>>) : v \in {(k \div m) \div 2 : k \in Keys, m \in {1, 2}}}
+           {SLbl(o, c, 0, vw[1], 0, vw[2], 0, "", <<>>) :
+               vw \in UNION {{<<(k \div m) \div (IF w = 0 THEN 2 ELSE w), w>> : k \in Keys, m \in {1, 2}} : w \in {0, 3}}}
       [] o \in {"eraseKey", "extractKey"} \cup SLookups \cup SLookupsK -> {SLbl(o, c, 0, v, 0, 0, 0, "", <<>>) : v \in Keys}
       [] o \in {"erasePos", "extractPos"} -> {SLbl(o, c, 0, 0, h, 0, 0, "", <<>>) : h \in 0..n - 1}
       [] o = "eraseRange" -> {SLbl(o, c, 0, 0, pq[1], pq[2], 0, "", <<>>) : pq \in {w \in (0..n) \X (0..n) : w[1] <= w[2]}}
